@@ -185,6 +185,13 @@ func (e *Engine) translate(fn *ssa.Function) (res *FuncResult, tr *Trans) {
 	tr.translateBody(top)
 	tr.finishPhis(top)
 	tr.expandDefers()
+	// the sorts of all heap components this function touches (needed when a caller must havoc a component
+	// of a callee's write set that it has not used itself yet)
+	for k, v := range tr.il.Vars {
+		if v.Comp != "" {
+			e.compSorts[k] = v.Sort
+		}
+	}
 	if e.scanMode {
 		return res, tr
 	}
